@@ -531,8 +531,11 @@ func checkCase(c *Case) error {
 				allowed = append(allowed, pAll)
 			}
 		case isOwner && isUser:
+			// the password is the owner password (the writer was given the
+			// same text twice, or no owner password, in which case the user
+			// password takes its place): this is owner access
 			mustOpen = true
-			allowed = []int{userPerm, pAll}
+			allowed = []int{pAll}
 		case isOwner:
 			mustOpen = true
 			allowed = []int{pAll}
